@@ -249,6 +249,16 @@ pub fn gen_f64(rng: &mut Rng) -> f64 {
 pub fn gen_scalar(rng: &mut Rng) -> SVal {
     match rng.below(14) {
         0 => SVal::Bool(rng.chance(1, 2)),
+        1 if rng.chance(1, 3) => {
+            // boundaries of every width, as 128-bit values
+            let w = *rng.pick(&[64u8, 128]);
+            let v = *rng.pick(&[0u128, 255, 256, 65535, 65536, u32::MAX as u128, 1 << 32, (1 << 63) - 1, 1 << 63, (1 << 63) + 1, u64::MAX as u128, 1 << 64]);
+            if w == 64 && v > u64::MAX as u128 { SVal::U(v, 128) } else { SVal::U(v, w) }
+        }
+        2 if rng.chance(1, 3) => {
+            let v = *rng.pick(&[0i128, -1, 127, -128, 128, -129, i32::MAX as i128, i32::MIN as i128, i64::MAX as i128, i64::MIN as i128, i64::MAX as i128 + 1, i64::MIN as i128 - 1, u64::MAX as i128, u64::MAX as i128 + 1, (1i128 << 63) + 12345]);
+            SVal::I(v, 128)
+        }
         1 => {
             let w = *rng.pick(&[8u8, 16, 32, 64, 128]);
             let v = if w == 128 { ((rng.next() as u128) << 64 | rng.next() as u128) >> rng.below(128) } else { (rng.next() >> rng.below(64)) as u128 & ((1u128 << w) - 1) };
